@@ -972,13 +972,15 @@ struct Guard<'a, K: Hash + Eq, V> {
     guard: MutexGuard<'a, Option<HashMap<K, V>>>,
 }
 
-/// Simulation hook: forget the negotiated connection templates and resolved entry points, so that every
-/// simulated execution starts from "first use". Loaded libraries stay loaded.
+/// Simulation hook: forget the negotiated connection templates, the resolved entry points and the library
+/// handles, so that every simulated execution starts from "first use". Libraries are never unloaded: the
+/// handles are leaked, and loading the same path again returns the already mapped library.
 #[cfg(savefile_verif_shuttle)]
 #[doc(hidden)]
 pub fn __verif_reset_caches() {
     *ENTRY_CACHE.lock().unwrap() = None;
     *ABI_CONNECTION_TEMPLATES.lock().unwrap() = None;
+    std::mem::forget(LIBRARY_CACHE.lock().unwrap().take());
 }
 
 impl<K: Hash + Eq, V> std::ops::Deref for Guard<'_, K, V> {
